@@ -37,7 +37,8 @@ REQUIRED_MONITORS = ["value-continuous", "normal-component-continuous", "tangent
                      "tangential-component-continuous/facetbasis"]
 REQUIRED_REACH = ["facet-opposite-direction", "facet-different-slot", "hdiv-orient-both-signs",
                   "hcurl-orient-both-signs", "curved-mesh", "docs-mesh", "quad-shifted", "hex-rotated",
-                  "derived-mesh", "derived-mesh:adaptive", "first-order-simplices-in-given-local-order"]
+                  "derived-mesh", "derived-mesh:adaptive", "first-order-simplices-in-given-local-order",
+                  "derived-directed:adaptive", "derived-directed:used-elsewhere", "derived-directed:uniform"]
 
 
 def mesh_geometry(mesh, kind, order):
@@ -450,7 +451,7 @@ def vertex_continuity(ctx, mc, rec):
                   worst=worstg, desc=mc.desc)
 
 
-def derived(ctx, rng, mc):
+def derived(ctx, rng, mc, op=None):
     """"For every mesh": also the meshes the library itself returns from an operation on a default-constructed
     mesh (the caller never switched anything off): adaptive and uniform refinement, restriction to a cell subset,
     rigid motion, mirroring, tagging.  Geometry class (affine / planar faces) is inherited."""
@@ -469,7 +470,10 @@ def derived(ctx, rng, mc):
         ops += ["to_meshtet"]
     if nt <= {"tri": 20, "quad": 16, "tet": 6, "hex": 3}[kind]:
         ops.append("uniform")
-    op = ops[int(rng.integers(len(ops)))]
+    if op is None:
+        op = ops[int(rng.integers(len(ops)))]
+    elif op not in ops:
+        raise Skip("operation-not-offered-for-this-mesh")
     d = m.p.shape[0]
     try:
         if op == "restrict":
@@ -604,6 +608,35 @@ def gen_case(kind):
     return fn
 
 
+DIRECTED_OPS = ("adaptive", "adaptive-twice", "used-elsewhere", "uniform", "restrict", "mirrored")
+DIRECTED_ELEMS = {"tri": ("ElementTriP3", "ElementTriRT2", "ElementTriN2", "ElementTriP2", "ElementTriP4"),
+                  "tet": ("ElementTetP2", "ElementTetN1", "ElementTetRT1")}
+
+
+def derived_directed(ctx, k):
+    """Every library operation of `derived` x elements with several DOFs per facet (and the single-DOF ones in 3-D), on
+    small meshes: the random draw of the gen-* families reaches each pair only now and then."""
+    rng = ctx.rng()
+    kind = ("tri", "tri", "tet")[k % 3]
+    combos = [(o, e) for o in DIRECTED_OPS for e in DIRECTED_ELEMS[kind]]
+    op, ename = combos[(k // 3) % len(combos)]
+    rec = EL.by_name(ename)
+    for attempt in range(6):
+        mc = G.first_order(ctx.rng("mesh", attempt), kind)
+        if mc.mesh.t.shape[1] <= (40 if kind == "tri" else 12):
+            break
+    else:
+        mc0 = G.first_order(rng, kind)
+        S = np.sort(rng.choice(mc0.mesh.t.shape[1], size=min(mc0.mesh.t.shape[1], 30 if kind == "tri" else 8), replace=False))
+        p, t = G.clean(np.asarray(mc0.mesh.p), np.asarray(mc0.mesh.t)[:, S].astype(np.int64))
+        mc = G.MeshCase(type(mc0.mesh)(p, t), kind, 1, dict(mc0.desc, subset=True))
+    mc2 = derived(ctx, rng, mc, op=op)
+    if mc2 is mc:
+        raise Skip("derived-operation-not-applied")
+    check_mesh_elem(ctx, mc2, rec)
+    ctx.reached("derived-directed:" + op)
+
+
 def line_case(ctx, k):
     """1-D: continuity at the shared vertices (no InteriorFacetBasis in 1-D)."""
     recs = [r for r in records_with_claim("line") if not r.name.startswith(("Vector(", "Composite("))]  # scalar records
@@ -691,3 +724,4 @@ for kd, mult_q, mult_t in (("tri", 2, 40), ("quad", 2, 40), ("tet", 2, 30), ("he
                            (lambda c, kd=kd, a=mult_q, b=mult_t: len(records_with_claim(kd)) * (a if c.tier == "quick" else b)),
                            budget={"quick": 40, "thorough": 900}))
 FAMILIES.append(Family("docs-meshes", docs_meshes, 1, 2, budget={"quick": 60, "thorough": 300}))
+FAMILIES.append(Family("derived-directed", derived_directed, 3 * 30, 3 * 30 * 6, budget={"quick": 40, "thorough": 300}))
